@@ -108,9 +108,13 @@ for _p in ["C01", "C02", "C03", "C04", "C05", "C06", "C10", "C12"]:
     PROPS[_p] = {"level": "model_checking", "conc": True, "assumptions": _A}
 
 
-def _mc(name, expect="ok", timeout=1500, workers=8, simulate=0):
+def _mc(name, expect="ok", timeout=1500, workers=8, simulate=0, spec="MC_Impl.tla"):
     """simulate > 0: the state space is too large to exhaust; TLC explores that many random behaviours instead (depth 400)"""
-    return {"spec": "MC_Impl.tla", "cfg": "MC_%s.cfg" % name, "expect": expect, "timeout": timeout, "workers": workers, "simulate": simulate}
+    return {"spec": spec, "cfg": "MC_%s.cfg" % name, "expect": expect, "timeout": timeout, "workers": workers, "simulate": simulate}
+
+
+# the lock-based reference strategy as its own implementation-shaped specification (spec/RwLockImpl.tla)
+_RWL = [_mc(n, workers=2, spec="MC_RwLock.tla") for n in ("rwl_rw", "rwl_cassw", "rwl_cas2", "rwl_3")] + [_mc("rwl_bug_cas", "Refines", workers=2, spec="MC_RwLock.tla")]
 
 
 _NEG = [_mc("bug_confirm", "Refines"), _mc("bug_hslot", "Refines"), _mc("bug_nohelp", "Refines"), _mc("bug_nowalk", "Refines")]
@@ -123,9 +127,9 @@ MC.update({
     "C03": {"quick": [_mc("rw1"), _mc("rw1_nf0"), _mc("lfsw"), _mc("2c"), _mc("bug_confirm", "Refines")],
             "thorough": [_mc("rw1"), _mc("rw1_nf0"), _mc("rw1_nf2"), _mc("lfsw"), _mc("lfsw_nf0"), _mc("2c"), _mc("2c_nf0"), _mc("2r1w"), _mc("2r1w_nf0"), _mc("rculd", simulate=40000, timeout=2400), _mc("bug_confirm", "Refines"),
                          _mc("hc", timeout=3600, workers=14), _mc("bug_hc_space", "EnvelopeLinear", timeout=3600, workers=14), _mc("bug_hc_addr", "Refines", timeout=3600, workers=14)]},
-    "C04": {"quick": [_mc("lfsw"), _mc("lfsw_nf0"), _mc("rcust")],
-            "thorough": [_mc("lfsw"), _mc("lfsw_nf0"), _mc("rcust"), _mc("rcu2"), _mc("1r2w", simulate=40000, timeout=2400), _mc("1r2w_nf0", simulate=40000, timeout=2400)]},
-    "C05": {"quick": [_mc("rcust"), _mc("cas"), _mc("cas2")], "thorough": [_mc("rcust"), _mc("cas"), _mc("cas2"), _mc("cas_nf0"), _mc("rcu2"), _mc("rcu2_nf0", simulate=40000, timeout=2400), _mc("rculd", simulate=40000, timeout=2400)]},
+    "C04": {"quick": [_mc("lfsw"), _mc("lfsw_nf0"), _mc("rcust")] + _RWL,
+            "thorough": [_mc("lfsw"), _mc("lfsw_nf0"), _mc("rcust"), _mc("rcu2"), _mc("1r2w", simulate=40000, timeout=2400), _mc("1r2w_nf0", simulate=40000, timeout=2400)] + _RWL},
+    "C05": {"quick": [_mc("rcust"), _mc("cas"), _mc("cas2")] + _RWL, "thorough": [_mc("rcust"), _mc("cas"), _mc("cas2"), _mc("cas_nf0"), _mc("rcu2"), _mc("rcu2_nf0", simulate=40000, timeout=2400), _mc("rculd", simulate=40000, timeout=2400)] + _RWL},
     "C06": {"quick": [_mc("rcust")], "thorough": [_mc("rcust"), _mc("rcu2"), _mc("rcu2_nf0", simulate=40000, timeout=2400), _mc("rculd", simulate=40000, timeout=2400)]},
     "C08": {"quick": [_mc("rw1"), _mc("rw1_nf0"), _mc("rw1h"), _mc("rw1h_nf0")],
             "thorough": [_mc("rw1"), _mc("rw1_nf0"), _mc("rw1_nf2"), _mc("rw1h"), _mc("rw1h_nf0"), _mc("2r1w"), _mc("2r1w_nf0")]},
@@ -141,6 +145,7 @@ MC.update({
     "C16": {"quick": [_mc("cache"), _mc("cache_nf0"), _mc("bug_cache", "Refines")],
             "thorough": [_mc("cache"), _mc("cache_nf0"), _mc("cache2"), _mc("bug_cache", "Refines")]},
     "C18": {"quick": [], "thorough": []},
+    "C14": {"quick": _RWL, "thorough": _RWL},
 })
 for _p in ["C08", "C09", "C11", "C13"]:
     PROPS[_p] = {"level": "model_checking", "conc": True, "assumptions": _A}
@@ -167,7 +172,7 @@ MANIFEST_TEXT = {
     "C11": {"text": "Node life-cycle in ArcSwapImpl (NodeExclusive, NodeUsedOwned, NodeBound) under TLC; on real executions the node-protocol monitor of Mem.tla (transaction state touched only by the owner or a registered writer; no hand-over while a pre-cool-down writer is inside; single owner), the bound #nodes <= 2 x peak threads, operations from thread-local destructors, systematic re-claim-under-writer schedules."},
     "C12": {"text": "Two containers under TLC (2c configurations); on real executions a load that returns a value only ever stored in another container is attributed to C12 (foreign-value clause), multi/solo2c families, re-claim schedules across containers."},
     "C13": {"text": "GenMod = 2 in ArcSwapImpl: the design of 1.7.1 (WrapMode code) violates NoPanic (negative control = finding F1), the repaired design (fixed) holds all invariants incl. the nested case; on the real crate the generation counter is preset next to the wrap (verif::set_generation), incl. the wrap inside a writer's nested load at every reader position; any panic, abort or hang of an operation is a violation."},
-    "C14": {"text": "All sequential programs of length <= 2 (thorough: 3) plus random deeper ones are enumerated by TLC from spec/SeqGen.tla and executed under DefaultStrategy, the fallback-only strategy and RwLock<()>; ArcSwapAbs pins every returned identity and every count in a sequential run; the identities must also agree across the strategies."},
+    "C14": {"text": "The lock-based strategy has its own implementation-shaped specification (spec/RwLockImpl.tla: lock operations and accesses of rw_lock.rs + lib.rs), model-checked against the same ArcSwapAbs (4 configurations incl. 3 threads, Termination under fairness, seeded bug 'compare_and_swap not atomic' must be caught), and is executed concurrently on the real crate (the scheduler takes the baton away from a thread that blocks on the lock). All sequential programs of length <= 2 (thorough: 3) plus random deeper ones are enumerated by TLC from spec/SeqGen.tla and executed under DefaultStrategy, the fallback-only strategy and RwLock<()>; ArcSwapAbs pins every returned identity and every count in a sequential run; the identities must also agree across the strategies."},
     "C15": {"text": "All operation sequences (into_ptr, from_ptr, as_ptr, inc, dec, clone, drop, upgrade, drop of the target) up to length 4/5 from 20 initial count states are enumerated by TLC from spec/RefCntLaws.tla with the predicted counts and executed on the real impls for 4 pointee layouts."},
     "C16": {"text": "Cache::new / Cache::load (Relaxed pointer compare + load_full, release of the superseded value) are actions of ArcSwapImpl, model-checked against the cache clauses of ArcSwapAbs (seeded model bug 'never revalidates' must be caught). Cache clauses of ArcSwapAbs (value returned was stored during the call, i.e. current-or-newer and never older than the previous result) on concurrent executions incl. a store landing at every point inside Cache::load followed by address reuse; sequential cache programs via SeqGen; all programs of <= 4 (thorough: 5) stores / loads through every way of looking through a cache (inherent load, the Access trait, a mapped cache, a clone; ArcSwap and ArcSwapOption with None) enumerated by TLC from spec/CacheViews.tla with the predicted result and the predicted strong count of every value after every step."},
     "C17": {"text": "Projection guards through Access, Map (static), Box<dyn DynAccess>, Map of Map, AccessConvert and ArcSwapAny::map: the snapshot shown is one value stored during the load, stays the same and alive for the guard's life while stores happen."},
